@@ -46,9 +46,23 @@ func appendAs(env *vstubodb.Env, l *ipfslog.IPFSLog, logID string, id *idp.Ident
 	return l, e
 }
 
+// inLog: the entry is part of the replica's log in any way a user can observe:
+// by address, in the ordered listing, or among the heads.
 func inLog(b *BaseStore, e ipfslog.Entry) bool {
-	_, ok := b.OpLog().Get(e.GetHash())
-	return ok
+	if _, ok := b.OpLog().Get(e.GetHash()); ok {
+		return true
+	}
+	for _, x := range b.OpLog().Values().Slice() {
+		if x.GetHash().Equals(e.GetHash()) {
+			return true
+		}
+	}
+	for _, x := range b.OpLog().Heads().Slice() {
+		if x.GetHash().Equals(e.GetHash()) {
+			return true
+		}
+	}
+	return false
 }
 
 // VerifC10Mixed: a replica with an explicit write list receives announcements
